@@ -408,9 +408,12 @@ func runCheck(repo, prop, tier string, rest []string) int {
 		"wall_s":      round3(time.Since(start).Seconds()),
 		"violations":  len(violations),
 	}
-	os.MkdirAll(filepath.Join(verifDir, "evidence"), 0o755)
-	b, _ := json.MarshalIndent(ev, "", " ")
-	os.WriteFile(filepath.Join(verifDir, "evidence", prop+".json"), append(b, '\n'), 0o644)
+	if r := os.Getenv("VERIF_REPO"); r == "" || r == "/repo" {
+		// (a run against a scratch copy - seeded change, selftest - leaves the evidence alone: it describes /repo itself)
+		os.MkdirAll(filepath.Join(verifDir, "evidence"), 0o755)
+		b, _ := json.MarshalIndent(ev, "", " ")
+		os.WriteFile(filepath.Join(verifDir, "evidence", prop+".json"), append(b, '\n'), 0o644)
+	}
 	fmt.Printf("property=%s tier=%s obligations=%d discharged=%d known_findings=%d undecided=%d violations=%d wall=%.1fs\n",
 		prop, tier, total, discharged, len(known), len(undecided), len(violations), time.Since(start).Seconds())
 	return exit
